@@ -196,6 +196,35 @@ def _run_server_tls_case(case, watchdog):
     return out, True
 
 
+def run_server_pp_case(case, watchdog):
+    """SMTP edge behind the PROXY protocol mix-in: the peer never sends (or never finishes) the PROXY header."""
+    from slimta.util.proxyproto import ProxyProtocol, ProxyProtocolV1, ProxyProtocolV2
+    mix = {'v1': ProxyProtocolV1, 'v2': ProxyProtocolV2, 'auto': ProxyProtocol}[case['version']]
+    cls = type('PP%sEdge' % case['version'], (mix, SmtpEdge), {})
+    edge = cls(None, sm.CaptureQueue(), hostname='edge', command_timeout=CMD_T * 2, data_timeout=DATA_T * 2)
+    a, b = gsocket.socketpair()
+    g = gevent.spawn(lambda: edge.handle(a, ('10.0.0.1', 1)))
+    out = []
+    t0 = time.time()
+    try:
+        if case['mode'] == 'partial':
+            b.sendall(b'PROXY TCP4 1.2.3' if case['version'] != 'v2' else b'\r\n\r\n\x00\r\nQUI')
+        g.join(timeout=watchdog)
+        if not g.dead:
+            out.append(('C14:server-session-outlives-timeouts:proxy-header',
+                        '%r: connection still held %.1f s after the peer stopped inside the PROXY header (command timeout %.2f)'
+                        % (case, time.time() - t0, CMD_T * 2)))
+    finally:
+        if not g.dead:
+            g.kill(block=False)
+        for s_ in (a, b):
+            try:
+                s_.close()
+            except Exception:
+                pass
+    return out, True
+
+
 def run_server_noread_case(case, watchdog):
     """The client pipelines commands without end and never reads a reply: the server's writes must not block it forever."""
     queue = sm.CaptureQueue()
@@ -235,6 +264,9 @@ def run_server_noread_case(case, watchdog):
 def server_cases():
     for what in ('noop', 'ehlo', 'bad'):
         yield {'family': 'server-noread', 'what': what}
+    for version in ('v1', 'v2', 'auto'):
+        for mode in ('silent', 'partial'):
+            yield {'family': 'server-pp', 'version': version, 'mode': mode}
     for how in ('immediate', 'starttls'):
         for mode in ('silent', 'partial'):
             yield {'family': 'server-tls', 'how': how, 'mode': mode}
@@ -781,7 +813,7 @@ def other_cases():
         yield {'family': 'http', 'mode': mode}
 
 
-RUN = {'server': run_server_case, 'server-tls': run_server_tls_case, 'server-noread': run_server_noread_case, 'client': run_client_case, 'client-idle': run_client_idle_case, 'pipe': run_pipe_case,
+RUN = {'server': run_server_case, 'server-tls': run_server_tls_case, 'server-noread': run_server_noread_case, 'server-pp': run_server_pp_case, 'client': run_client_case, 'client-idle': run_client_idle_case, 'pipe': run_pipe_case,
        'http': run_http_case, 'http-reuse': run_http_reuse_case, 'https': run_https_case}
 
 
@@ -824,6 +856,9 @@ def replay(case):
                 return []
         elif fam == 'http' and case.get('mode') not in ('silent', 'trickle', 'trickle-headers'):
             return []
+        elif fam == 'server-pp':
+            if case.get('version') not in ('v1', 'v2', 'auto') or case.get('mode') not in ('silent', 'partial'):
+                return []
         elif fam == 'server-noread':
             if case.get('what') not in ('noop', 'ehlo', 'bad'):
                 return []
